@@ -19,6 +19,15 @@ itself produced under the same path (a complete older product, leftovers of an e
 file names the implementation derives from the path when it removes, writes and reads are taken from the traces
 (unlink attempts, writes, read-only opens) and are parameters of the model (WProduct: theorems
 C08_crash_safe_product / C08_names_ok); recovery = the same class' from_files / from_file on the same path.
+
+Sizes above the user-space buffers (scale "x", create / overwrite only, every tier): two patches of ~1500 records
+each, handed to the writers in pieces of which some are smaller than an io buffer (4 KiB here), some several times
+larger, and the last one of every patch small.  At these sizes buffering is visible at system-call granularity: one
+piece reaches data.bin in several write calls (ndarray.tofile: whole blocks, then the rest), and a writer that keeps
+data in a buffered handle issues its writes late.  The model takes how each piece is cut into system calls from the
+trace (WCreateB / WOverwriteB, theorems C08_crash_safe_create_buffered / _overwrite_buffered hold for EVERY cutting;
+C08_marker_before_flush_refuted is the unsafe order) and abstracts a record to the piece that delivered it
+(run-length terms); the crash states are classified by the real recovery on the real bytes as everywhere else.
 """
 import json
 import os
@@ -68,6 +77,38 @@ SCALES = {
     "m": dict(npatch=5, n=110, cs=32),
     "l": dict(npatch=8, n=200, cs=48),
 }
+IO_BLOCK = 4096      # st_blksize here = size of the stdio / io.BufferedWriter buffers (only used to label the evidence)
+RECORD = 32          # bytes per stored record (ra, dec, weight, redshift as float64)
+
+
+def piece_sizes(patch, cs):
+    """bytes per (chunk, patch) piece when rows with patch ids `patch` are processed cs rows at a time"""
+    out = []
+    for c0 in range(0, len(patch), cs):
+        rows = patch[c0:c0 + cs]
+        out += [RECORD * sum(1 for q in rows if q == pid) for pid in sorted(set(rows))]
+    return out
+
+
+def big_scale(rng):
+    """scale "x": per-patch data several times any plausible user-space buffer (2 x ~1500 records = 2 x 47 KiB).
+    Dataset A (create) is cut into pieces AROUND one io block (~128 records of 32 bytes: at least three pieces fit
+    into a buffer and at least three do not, checked on the actual data), dataset B (overwrite) into pieces of
+    2 .. 3.5 blocks; the chunk sizes are drawn such that the last chunk is short (8 .. 80 records per patch: smaller
+    than any buffer), so that a writer that buffers at all still holds data when the last piece has been handed over."""
+    base = dict(npatch=2, n=3000, cs=256, n_fixed=36, wB_odd=True, big=True)
+    patch = {ds: drv.dataset(ds, base)["patch"].tolist() for ds in ("A", "B")}
+
+    def pick(ds, lo, hi, ok):
+        cands = [c for c in range(lo, hi) if 16 <= len(patch[ds]) % c <= 160]
+        rng.shuffle(cands)
+        for c in cands:
+            if ok(piece_sizes(patch[ds], c)):
+                return c
+        return cands[0]
+    mixed = lambda sz: sum(1 for x in sz if x < IO_BLOCK) >= 3 and sum(1 for x in sz if x > IO_BLOCK) >= 3
+    large = lambda sz: sum(1 for x in sz if x > 2 * IO_BLOCK) >= 4 and sz[-1] < IO_BLOCK
+    return dict(base, cs=pick("A", 240, 300, mixed), cs_B=pick("B", 500, 900, large))
 
 
 # ------------------------------------------------------------------ recovery worker client
@@ -158,6 +199,21 @@ def coq_nlist(xs):
     return "[" + "; ".join(str(x) for x in xs) + "]"
 
 
+def coq_recs(xs):
+    """a record list; long ones in the run-length notation of Model/FsCrash.v (rl [(v, n); ...] = n times v, ...)"""
+    xs = [int(x) for x in xs]
+    if len(xs) <= 48:
+        return coq_nlist(xs)
+    assert all(0 <= x < 5000 for x in xs)
+    runs = []
+    for x in xs:
+        if runs and runs[-1][0] == x:
+            runs[-1][1] += 1
+        else:
+            runs.append([x, 1])
+    return "(rl [" + "; ".join("(%d, %d)" % (v, n) for v, n in runs) + "])"
+
+
 class Abstraction:
     """bytes -> abstract content; knows the records of datasets A/B of one scale, the binning markers and the
     complete files of uninterrupted runs (reference pickles / result files)."""
@@ -165,6 +221,11 @@ class Abstraction:
     def __init__(self, scale, trees_info=None):
         self.rec = {}
         self.pieces = {}
+        # large scale: a record is abstracted to the PIECE that delivers it (all records of a piece get the piece's
+        # number; A: 0.., B: 64..), so that long files are short run-length terms and a partially written piece is
+        # described by a count, whatever order the records of a piece have in the file
+        self.by_piece = bool(scale.get("big"))
+        self.offset = {"A": 0, "B": 64} if self.by_piece else REC_OFFSET
         self.trees_info = trees_info
         self.tree_sig = {}     # (patch id, binned?, records per tree, sum of weights per tree) -> binning tag
         self._tcache = {}
@@ -185,15 +246,18 @@ class Abstraction:
                         sig = (pid, True, tuple(cnt), tuple(sw))
                     assert self.tree_sig.get(sig, TAG[name]) == TAG[name], "two binnings/datasets give the same trees: dataset too coarse"
                     self.tree_sig[sig] = TAG[name]
-            for i, b in enumerate(recs):
-                assert b not in self.rec, "duplicate record"
-                self.rec[b] = REC_OFFSET[ds] + i
-            cs = int(scale["cs"])
+            cs = drv.chunksize(ds, scale)
             ps = []
             for c0 in range(0, len(recs), cs):
                 rows = range(c0, min(c0 + cs, len(recs)))
                 for pid in sorted({patch[r] for r in rows}):
-                    ps.append((pid, [REC_OFFSET[ds] + r for r in rows if patch[r] == pid]))
+                    mine = [r for r in rows if patch[r] == pid]
+                    ident = (lambda r, j=len(ps): self.offset[ds] + j) if self.by_piece else (lambda r: self.offset[ds] + r)
+                    for r in mine:
+                        assert recs[r] not in self.rec, "duplicate record"
+                        self.rec[recs[r]] = ident(r)
+                    ps.append((pid, [ident(r) for r in mine]))
+            assert not self.by_piece or len(ps) < 64, "too many pieces for the numbering of the large scale"
             self.pieces[ds] = ps
         self.marker = {}
         for name, (edges, closed) in drv.BINNINGS.items():
@@ -237,15 +301,18 @@ class Abstraction:
             if data == b"":
                 return "(DataF false [])"
             body = data[1:]
-            if data[:1] != b"\x0f" or len(body) % 32:
+            if data[:1] != b"\x0f":
                 return "Junk"
             ids = []
-            for j in range(0, len(body), 32):
-                r = self.rec.get(body[j:j + 32])
+            for j in range(0, len(body) - len(body) % RECORD, RECORD):
+                r = self.rec.get(body[j:j + RECORD])
                 if r is None:
                     return "Junk"
                 ids.append(r)
-            return "(DataF true %s)" % coq_nlist(sorted(ids))
+            if len(body) % RECORD:
+                # a write system call that ended inside a record: complete records + a part of one more
+                return "(DataT %s)" % coq_recs(sorted(ids))
+            return "(DataF true %s)" % coq_recs(sorted(ids))
         if name == "meta.yml":
             if data == b"":
                 return "(MetaF false)"
@@ -456,6 +523,7 @@ class ProductAbstraction:
 class Scale:
     def __init__(self, ctx, W, tag, scale):
         self.ctx, self.W, self.tag, self.scale = ctx, W, tag, scale
+        self.big = bool(scale.get("big"))      # catalog creation / overwrite only, buffered model
         self.root = os.path.join(ctx.workdir, "scale_" + tag)
         os.makedirs(self.root, exist_ok=True)
         self.ab = Abstraction(scale, self.trees_info)
@@ -485,9 +553,10 @@ class Scale:
         for ds in ("A", "B"):
             W.must({"cmd": "make_catalog", "dir": self.p("fresh", ds), "dataset": ds, "scale": sc})
         # reference pickles, measurements on fresh caches (one fresh copy per request)
+        reqs = [DEFAULT_REQ] if self.big else list(TAG)
         for ds in ("A", "B"):
             ref = {"measure": {}}
-            for req in TAG:
+            for req in reqs:
                 d = self.p("tmp_ref")
                 shutil.rmtree(d, ignore_errors=True)
                 shutil.copytree(self.p("fresh", ds), d)
@@ -502,8 +571,10 @@ class Scale:
                 shutil.rmtree(d)
             self.refs[ds] = ref
         assert self.refs["A"]["data"] != self.refs["B"]["data"]
-        for req in TAG:
+        for req in reqs:
             assert self.refs["A"]["measure"][req] != self.refs["B"]["measure"][req]
+        if self.big:
+            return
         os.makedirs(self.p("res"))
         for ds in ("A", "B"):
             d = self.p("tmp_ref")
@@ -558,6 +629,8 @@ class Scale:
         wl = []
 
         def add(name, kind, prior_ds, new_ds, make_prior, requests=(), **kw):
+            if self.big and kind not in ("create", "overwrite"):
+                return           # large scale: catalog creation / overwrite only (the workloads whose size matters)
             live = self.p("wl", name, "live")
             os.makedirs(os.path.dirname(live), exist_ok=True)
             make_prior(live)
@@ -597,7 +670,7 @@ class Scale:
         add("corrdata_fresh", "corrdata", None, "B", res_dir([]), source=self.p("res", "cdB"))
         add("corrdata_over", "corrdata", "A", "B",
             res_dir([("cdA.dat", "cd.dat"), ("cdA.smp", "cd.smp"), ("cdA.cov", "cd.cov")]), source=self.p("res", "cdB"))
-        for j, sh in enumerate(self.product_shapes()):
+        for j, sh in enumerate([] if self.big else self.product_shapes()):
             self.add_product(add, "p%02d_%s" % (j, sh["what"]), sh)
         if only:
             wl = [w for w in wl if w["name"] in only]
@@ -743,6 +816,8 @@ class Scale:
                 "; ".join("(%s, (%d, %d))" % (nm, max(ni - 1, 0), max(nc - 1, 0)) for nm, ni, nc in ws),
                 "; ".join(ab.path(x) for x in w["nr"]), VAL[w["new_ds"]])
         if k == "create":
+            if self.big:
+                return "(WCreateB %s)" % self.bpieces_term(w)
             return "(WCreate %s)" % self.pieces_term(w["new_ds"])
         if k == "overwrite":
             order = []
@@ -751,6 +826,8 @@ class Scale:
                     order.append(ab.path(op["path"]))
                 else:
                     break
+            if self.big:
+                return "(WOverwriteB %s [%s] %s)" % (s0, "; ".join(order), self.bpieces_term(w))
             return "(WOverwrite %s [%s] %s)" % (s0, "; ".join(order), self.pieces_term(w["new_ds"]))
         if k == "metadata":
             return "(WMeta %s)" % s0
@@ -773,6 +850,39 @@ class Scale:
 
     def pieces_term(self, ds):
         return "[" + "; ".join("(%d, %s)" % (pid, coq_nlist(ids)) for pid, ids in self.ab.pieces[ds]) + "]"
+
+    def data_ends(self, w):
+        """-> {patch id: [length of data.bin without its header byte after every write system call on it]}"""
+        st = w["prior_state"].copy()
+        ends = {}
+        for op in w["ops"]:
+            st.apply(op)
+            parts = op["path"].split(os.sep)
+            if (op["op"] in ("write", "pwrite") and len(parts) == 2 and parts[1] == "data.bin"
+                    and parts[0].startswith("patch_") and parts[0][6:].isdigit()):
+                ends.setdefault(int(parts[0][6:]), []).append(len(st.files[op["path"]]) - 1)
+        return ends
+
+    def piece_cuts(self, w):
+        """how the trace cuts every piece of the new dataset into write system calls: per piece the list of
+        (complete records of the piece in the file, does a part of one more follow?) after each call that ends
+        strictly inside the piece.  These are the parameters of the buffered model; a call that does not end where a
+        piece ends (data of two pieces merged in a buffer, or written late) leaves the model's completing call
+        without a counterpart and shows as a difference of the operation lists."""
+        ends = self.data_ends(w)
+        start, out = {}, []
+        for pid, ids in self.ab.pieces[w["new_ds"]]:
+            lo = start.get(pid, 0) * RECORD
+            hi = lo + len(ids) * RECORD
+            out.append([((e - lo) // RECORD, (e - lo) % RECORD != 0) for e in ends.get(pid, []) if lo < e < hi])
+            start[pid] = start.get(pid, 0) + len(ids)
+        return out
+
+    def bpieces_term(self, w):
+        cuts = self.piece_cuts(w)
+        w["cuts"] = cuts
+        return "[" + "; ".join("((%d, %s), [%s])" % (pid, coq_recs(ids), "; ".join("(%d, %s)" % (c, "true" if t else "false") for c, t in cs))
+                               for (pid, ids), cs in zip(self.ab.pieces[w["new_ds"]], cuts)) + "]"
 
     # ---- recovery of one materialised state
     def classify(self, w, st, req):
@@ -867,6 +977,11 @@ class Scale:
             if (st.files.get("patch_ids.bin") == b"" and det.get("ids") == []
                     and self.position(w, k) == "after-open:patch_ids.bin,before-write:patch_ids.bin"):
                 return "c08-empty-patch-ids-opens-as-empty-catalog"
+            fin = w["final_state"].files
+            short = sorted(f for f in fin if os.path.basename(f) == "data.bin" and st.files.get(f) != fin[f])
+            if st.files.get("patch_ids.bin") == fin.get("patch_ids.bin") and short:
+                # the completeness marker is on disk, the data of some patch is not (yet)
+                return "c08-%s-patch-ids-complete-before-patch-data:%s" % (kind, pos)
             return "c08-%s-partial-catalog-opens:%s" % (kind, pos)
         if kind == "metadata":
             return "c08-metadata-partial:%s" % pos
@@ -1004,6 +1119,31 @@ def probes(ctx, scales, cases):
     ctx.extra["probes"] = seen
 
 
+def buffering_evidence(ctx, scales):
+    """what the large scale exercised: sizes of the pieces relative to an io block and how the trace cut them into
+    write system calls (evidence only: an implementation that writes every piece in one call is fine as well)"""
+    out = {}
+    for S in scales:
+        if not S.big:
+            continue
+        for w in S.wl:
+            sizes = [len(ids) * RECORD for _, ids in S.ab.pieces[w["new_ds"]]]
+            cuts = w.get("cuts") or [[] for _ in sizes]
+            per_patch = {}
+            for pid, ids in S.ab.pieces[w["new_ds"]]:
+                per_patch[pid] = per_patch.get(pid, 0) + len(ids) * RECORD
+            out["%s/%s" % (S.tag, w["name"])] = dict(
+                chunksize=drv.chunksize(w["new_ds"], S.scale), pieces=len(sizes), bytes_per_patch=per_patch,
+                piece_bytes_min_max=[min(sizes), max(sizes)], pieces_below_io_block=sum(1 for x in sizes if x < IO_BLOCK),
+                pieces_above_two_io_blocks=sum(1 for x in sizes if x > 2 * IO_BLOCK),
+                last_piece_bytes={pid: [len(ids) * RECORD for q, ids in S.ab.pieces[w["new_ds"]] if q == pid][-1] for pid in per_patch},
+                pieces_in_several_system_calls=sum(1 for c in cuts if c), torn_cuts=sum(1 for c in cuts for _, t in c if t),
+                operations=len(w["ops"]))
+            ctx.bump("x:%s:pieces-in-several-system-calls=%s" % (w["name"], "yes" if any(cuts) else "no"))
+    if out:
+        ctx.extra["buffering"] = out
+
+
 def sigkill_crosscheck(ctx, S, n_runs):
     """thorough: produce crash points for real (strace SIGKILL injection) and compare with the replayed prefix"""
     rng = ctx.rng
@@ -1071,9 +1211,10 @@ def run(ctx):
     W = Worker(ctx)
     scales, cases = [], []
     try:
-        tags = ["s"] if ctx.quick() else ["s", "m", "l"]
+        tags = ["s", "x"] if ctx.quick() else ["s", "m", "l", "x"]
+        params = dict(SCALES, x=big_scale(ctx.rng))
         for tag in tags:
-            S = Scale(ctx, W, tag, SCALES[tag])
+            S = Scale(ctx, W, tag, params[tag])
             t0 = time.time()
             S.prepare()
             S.define_workloads()
@@ -1084,6 +1225,7 @@ def run(ctx):
         wl_index = coq_compare(ctx, scales, cases)
         verdicts(ctx, wl_index, cases)
         probes(ctx, scales, cases)
+        buffering_evidence(ctx, scales)
         ctx.extra["crash_points"] = len(cases)
         ctx.extra["worker_restarts"] = W.restarts
         for w in scales[0].wl:
